@@ -35,6 +35,28 @@ type env struct {
 	desc  string
 	evals int
 	fails int
+	// poison: st is a poisonStore - every mismatch is attributable to memory of a read
+	// callback / UncopiedValue being retained (the same records pass on the plain store)
+	poison bool
+	// others: numbers of the other stored blocks, read between creating and draining a lazy result
+	others []uint64
+}
+
+// interleave performs unrelated reads of other blocks (recycling the read buffers of a
+// real store) between the creation of a lazily decoded result and its consumption.
+func (e *env) interleave() {
+	n := 0
+	for _, o := range e.others {
+		core.GetTransactionsAndReceiptsByBlockNumber(e.st, o)
+		core.GetBlockHeaderByNumber(e.st, o)
+		core.GetStateUpdateByBlockNum(e.st, o)
+		core.BlockTransactionsBucket.Get(e.st, o)
+		if n++; n >= 3 {
+			break
+		}
+	}
+	core.GetChainHeight(e.st)
+	e.r.Count("lazy/interleaved_read_rounds", 1)
 }
 
 type witness struct {
@@ -52,6 +74,7 @@ type witness struct {
 
 func (e *env) report(class, accessor string, d *delta, note string) {
 	e.fails++
+	e.r.Count("violations_by_store/"+e.layer+"/"+e.dbn, 1)
 	w := witness{Layer: e.layer, DB: e.dbn, Config: e.cfg, Block: e.desc, Accessor: accessor, Note: note}
 	brief := fmt.Sprintf("[%s/%s %s] %s: %s", e.layer, e.dbn, e.cfg, accessor, note)
 	if d != nil {
@@ -63,13 +86,37 @@ func (e *env) report(class, accessor string, d *delta, note string) {
 
 // same: oracle (1) - the value an accessor returned equals what was stored.
 func (e *env) same(accessor, root string, exp, got any, err error) bool {
+	if e.poison {
+		return e.sameAs("retained-callback-buffer", accessor, root, exp, got, err)
+	}
+	return e.sameAs("read-back", accessor, root, exp, got, err)
+}
+
+// deferred: a lazily decoded result consumed after the read that produced it has returned and
+// other reads have happened still equals what was stored. A mismatch here (with the
+// immediate consumption being fine) means the result aliases memory owned by the store.
+func (e *env) deferred(accessor, root string, exp, got any, err error) bool {
+	e.r.Count("lazy/deferred_drains", 1)
+	return e.sameAs("retained-callback-buffer", accessor+"[drained after other reads]", root, exp, got, err)
+}
+
+func (e *env) sameAs(prefix, accessor, root string, exp, got any, err error) bool {
 	e.evals++
 	if err != nil {
-		e.report("read-back:"+accessor+":error", accessor, nil, "unexpected error: "+err.Error())
+		if prefix == "retained-callback-buffer" {
+			// one class per accessor: what the garbage decodes to (error or wrong value, which field) is incidental
+			e.report(prefix+":"+accessor, accessor, nil, "unexpected error: "+err.Error())
+		} else {
+			e.report(prefix+":"+accessor+":error", accessor, nil, "unexpected error: "+err.Error())
+		}
 		return false
 	}
 	if d := diff(root, exp, got); d != nil {
-		e.report("read-back:"+accessor+":"+d.ClassPath+":"+d.Kind, accessor, d, "")
+		if prefix == "retained-callback-buffer" {
+			e.report(prefix+":"+accessor, accessor, d, "")
+		} else {
+			e.report(prefix+":"+accessor+":"+d.ClassPath+":"+d.Kind, accessor, d, "")
+		}
 		return false
 	}
 	return true
@@ -200,6 +247,50 @@ func (e *env) checkBlock(x *expBlock, isHead bool) {
 		} else {
 			e.same("BlockTransactionsSerializer.Marshal(Unmarshal(stored bytes))", "bytes", nil, nil, errors.Join(e3, e4))
 		}
+	}
+
+	// ---- lazily decoded results consumed late: created, then other blocks are read, then drained
+	if bt2, err := core.BlockTransactionsBucket.Get(st, n); err == nil {
+		lt, lr := bt2.Transactions(), bt2.Receipts()
+		seq := lt.Iter()
+		e.interleave()
+		dTxs, e1 := lt.All()
+		e.deferred("BlockTransactionsBucket.Get().Transactions().All", "Transactions", xTxs, dTxs, e1)
+		dRcs, e2 := lr.All()
+		e.deferred("BlockTransactionsBucket.Get().Receipts().All", "Receipts", xRcs, dRcs, e2)
+		var seqTxs []core.Transaction
+		var seqErr error
+		for tx, err := range seq {
+			if err != nil {
+				seqErr = err
+				break
+			}
+			seqTxs = append(seqTxs, tx)
+		}
+		e.deferred("BlockTransactionsBucket.Get().Transactions().Iter", "Transactions", xTxs, nonNil(seqTxs), seqErr)
+		if len(xTxs) > 0 {
+			last := len(xTxs) - 1
+			tx, err := lt.Get(last)
+			e.deferred("BlockTransactionsBucket.Get().Transactions().Get", "Transaction", xTxs[last], tx, err)
+		}
+		if len(xRcs) > 0 {
+			rc, err := lr.Get(0)
+			e.deferred("BlockTransactionsBucket.Get().Receipts().Get", "Receipt", xRcs[0], rc, err)
+		}
+	}
+	{
+		seq := core.GetTransactionsByBlockNumberIter(st, n)
+		e.interleave()
+		var seqTxs []core.Transaction
+		var seqErr error
+		for tx, err := range seq {
+			if err != nil {
+				seqErr = err
+				break
+			}
+			seqTxs = append(seqTxs, tx)
+		}
+		e.deferred("core.GetTransactionsByBlockNumberIter", "Transactions", xTxs, nonNil(seqTxs), seqErr)
 	}
 
 	// all-at-once accessors
